@@ -28,13 +28,20 @@ def tokenEvent (tok : String) : Option Ev :=
 def eventsCmd (ws : List String) : String :=
   match sections ws with
   | [[kind, ns], toks] =>
-    match ns.toNat?, toks.mapM tokenEvent with
-    | some n, some evs =>
+    match ns.toInt?, toks.mapM tokenEvent with
+    | some ni, some evs =>
+      let n := ni.toNat
       let res := String.ofList (evs.map fun e => if e.isSome then 'o' else 'e')
+      -- which of the gated collectors' outcomes are determined: percent > 100 / <= 0, interval 0 / one hour
+      if (kind == "randomT" || kind == "randomF") && 1 ≤ ni && ni ≤ 100 then s!"{res} written=SUBSEQ" else
+      if kind == "intervalT" then s!"{res} written=SUBSEQ" else
       let written : Option (List Perf) := match kind with
         | "basic" => some (basicRun none evs)
         | "sampling" => some (samplingRun { sample := n } evs)
         | "passthrough" => some (evs.filterMap passthroughStep)
+        | "randomT" | "randomF" => some (gatedRun none (List.replicate evs.length (decide (ni > 100))) evs)
+        | "interval0" => some (gatedRun none (List.replicate evs.length true) evs)
+        | "intervalInf" => some (gatedRun none [true] evs)
         | _ => none
       match written with
       | some w => s!"{res} written=[{joinSp (w.map perfStr)}]"
